@@ -3,10 +3,19 @@ use std::collections::BTreeMap;
 use std::collections::HashMap;
 use std::collections::HashSet;
 use std::mem;
+#[cfg(not(locustdb_verif))]
 use std::sync::atomic::{AtomicBool, AtomicUsize, Ordering};
+#[cfg(locustdb_verif)]
+use locustdb_simrt::sync::atomic::{AtomicBool, AtomicUsize, Ordering};
 use std::sync::Arc;
+#[cfg(not(locustdb_verif))]
 use std::sync::Mutex;
+#[cfg(locustdb_verif)]
+use locustdb_simrt::sync::Mutex;
+#[cfg(not(locustdb_verif))]
 use std::time::Instant;
+#[cfg(locustdb_verif)]
+use locustdb_simrt::time::Instant;
 
 use itertools::Itertools;
 use ordered_float::OrderedFloat;
@@ -172,6 +181,8 @@ impl QueryTask {
             let cols =
                 partition.get_cols(&self.referenced_cols, &self.db, self.perf_counter.as_ref());
             rows_scanned += cols.iter().next().map_or(0, |c| c.1.len());
+            #[cfg(locustdb_verif)]
+            locustdb_simrt::sync_point("query:after_get_cols");
             let unsafe_cols = unsafe {
                 mem::transmute::<
                     &HashMap<String, Arc<dyn DataSource>>,
@@ -270,6 +281,16 @@ impl QueryTask {
         }) {
             let br1 = batch_results.remove(&key1).unwrap();
             let br2 = batch_results.remove(&key2).unwrap();
+            #[cfg(locustdb_verif)]
+            locustdb_simrt::note(
+                "query:combine",
+                &[
+                    br1.scanned_range.start as u64,
+                    br1.scanned_range.end as u64,
+                    br2.scanned_range.start as u64,
+                    br2.scanned_range.end as u64,
+                ],
+            );
             let result = combine(br1, br2, combined_limit, batch_size)?;
             batch_results.insert(key1, result);
         }
